@@ -34,6 +34,7 @@ FLAGSETS = [
     dict(persistent=True, always_reconnect=False, reconnect_wait=1, addr=True),
     dict(persistent=True, always_reconnect=False, reconnect_wait=2, addr=False),
     dict(persistent=False, always_reconnect=True, reconnect_wait=1, addr=True),
+    dict(persistent=True, always_reconnect=False, reconnect_wait=2, addr=True, busy=True),
 ]
 PEER = "peer1.verif.example"
 
@@ -58,7 +59,9 @@ class Case:
               "reconnect_wait": flags["reconnect_wait"], "addr": flags["addr"]}
         # a dial that stays pending must outlive a reconnect wait for "pending_inbound_lost" to mean anything
         self.cea_timeout = flags["reconnect_wait"] + 3 if "pending_inbound_lost" in outcomes else 2
-        self.w = World(dict(peers=[pc], apps=[{"tag": "a4", "id": 4, "peers": [PEER]}],
+        peers = [pc] + ([{"name": "busy.verif.example", "ip": "10.1.0.9"}] if flags.get("busy") else [])
+        self.busy_sp, self.busy_n = None, 0
+        self.w = World(dict(peers=peers, apps=[{"tag": "a4", "id": 4, "peers": [PEER]}],
                             node={"cea_timeout": self.cea_timeout, "cer_timeout": 2, "dwa_timeout": 10 ** 6,
                                   "idle_timeout": 10 ** 6}))
         self.late_dwa = "dpr_late_dwa" in outcomes
@@ -106,6 +109,8 @@ class Case:
         for s in self.h.sockets:
             if s.role != "accepted" or s.closed or s.dead or s.peer is None or s.peer.closed:
                 continue
+            if s.peer is self.busy_sp or s.peer_addr[0] == "10.1.0.9":
+                continue            # the busy neighbour is another peer
             s.peer.drain()
             if any(f.h.code == 257 and not f.is_request and f.result_code == 2001 for f in s.peer.frames):
                 return True
@@ -118,7 +123,26 @@ class Case:
         want = self.may_dial(h.now)
         from vf.simnet.harness import Inconclusive
         try:
-            h.settle(max_ticks=40)
+            if self.flags.get("busy") and self.node._connection_thread is not None and h.io_alive():
+                # a neighbour connection keeps the loop busy: no iteration of this step finds select() idle
+                if self.busy_sp is None:
+                    b = h.inbound(ip="10.1.0.9", port=59999)
+                    h.settle(max_ticks=40)
+                    b.send(self.M.cer("busy.verif.example", self.REALM, auth=[4], hbh=1, e2e=1))
+                    h.settle(max_ticks=40)
+                    b.drain()
+                    self.busy_sp = b
+                for _ in range(8):
+                    self.busy_n += 1
+                    self.busy_sp.send(self.M.dwr("busy.verif.example", self.REALM, hbh=20000 + self.busy_n,
+                                                 e2e=30000 + self.busy_n))
+                    h.tick()
+                    h.wait_workers_idle(1)
+                self.busy_sp.drain()
+                self.busy_sp.frames.clear()
+                self.run.cov["busy_neighbour_steps"] = self.run.cov.get("busy_neighbour_steps", 0) + 1
+            else:
+                h.settle(max_ticks=40)
         except Inconclusive:
             # the node does not come to rest: if it keeps dialling, that is the refuting observation itself
             live = self.live_outbound()
@@ -482,7 +506,8 @@ def run_shard(spec):
     else:
         for _ in range(spec["n"]):
             flags = dict(persistent=rng.random() < 0.8, always_reconnect=rng.random() < 0.4,
-                         reconnect_wait=rng.choice([1, 2, 3, 5, 10, 30, 60]), addr=rng.random() < 0.85)
+                         reconnect_wait=rng.choice([1, 2, 3, 5, 10, 30, 60]), addr=rng.random() < 0.85,
+                         busy=rng.random() < 0.25)
             seq = [rng.choice(OUTCOMES) for _ in range(rng.randrange(2, 7))]
             run.one(flags, seq)
     return run.result()
